@@ -7,6 +7,7 @@ Export ListNotations.
 Open Scope N_scope.
 
 Definition bytes := list N.
+Definition path := bytes.
 
 Fixpoint beq (a b : bytes) : bool :=
   match a, b with
